@@ -8,13 +8,20 @@ SH=${1:-0/1}; SI=${SH%/*}; SN=${SH#*/}
 fail=0; k=0
 for d in seeded/*/; do
   n=$(basename $d)
-  k=$((k+1)); [ $((k % SN)) = "$SI" ] || continue
   if grep -q '"not_reached_by_the_harness": true' $d/meta.json 2>/dev/null; then echo "$n skipped (recorded miss: needs a configuration the harness cannot construct, see DESIGN.md)"; continue; fi
   if grep -q '"not_observable_on_a_chain": true' $d/meta.json 2>/dev/null; then echo "$n skipped (not observable under transaction semantics)"; continue; fi
   id=$(python3 -c "
 import json;m=json.load(open('$d/meta.json'));c=m.get('check_exit_codes') or {}
 ids=[k for k,v in c.items() if v==1]
 print(m['property'] if m['property'] in ids or not ids else ids[0])")
+  # ONLY_IDS="C01 C07" restricts the run to seeds whose catching check is one of these; ONLY_ROUND=R17 to one round
+  if [ -n "${ONLY_IDS:-}${ONLY_ROUND:-}" ]; then
+    keep=0
+    for w in ${ONLY_IDS:-}; do [ "$w" = "$id" ] && keep=1; done
+    case "$n" in "${ONLY_ROUND:-@none}"-*) keep=1;; esac
+    [ $keep = 1 ] || continue
+  fi
+  k=$((k+1)); [ $((k % SN)) = "$SI" ] || continue
   out=$(tools/mutest.sh $d/patch.diff $id quick 2>&1 | grep -v '^KNOWN' | tail -3)
   rc=$(echo "$out" | grep -oE 'mutest exit=[0-9]+' | grep -oE '[0-9]+$')
   clause=$(echo "$out" | grep -oE 'violation detail: \[[^]]+\]' | head -1)
